@@ -7,6 +7,7 @@ import vlib
 
 sys.path.insert(0, os.path.join(vlib.ROOT, "lib"))
 import c13lang  # noqa: E402
+import c13machine  # noqa: E402
 
 HAND = [
     # (name, source, expected) -- minimal shapes kept as explicit corpus cases
@@ -68,28 +69,69 @@ println(g.().inspect)
 ]
 
 
+RISKY = ("loop_forlist", "exit_after_capture", "labelled_break", "labelled_continue", "tailcall_self", "tailcall_self_w",
+         "tailcall_other", "tailcall_other_local", "captured_param_written")
+
+
 def key_of(feats, cls, env):
-    loops = sorted(f for f in feats if f.startswith("loop_"))
-    shape = "loops" if loops else ("nested" if "nested_closure" in feats else "flat")
+    """canonical class of a failing generated program: outcome x the defect-prone shapes it contains x stack class"""
+    if "witness" in feats:
+        return "witness:" + feats[1]
+    risky = sorted(f for f in feats if f in RISKY)
+    if risky:
+        shape = "+".join(risky)
+    else:
+        loops = sorted(f for f in feats if f.startswith("loop_"))
+        shape = "loops" if loops else ("nested" if "nested_closure" in feats else "flat")
     return "%s:%s:%s" % (cls, shape, "small-stack" if env else "default-stack")
+
+
+def load_witnesses():
+    d = os.path.join(vlib.ROOT, "corpus", "C13.src")
+    items = []
+    cpath = os.path.join(vlib.ROOT, "corpus", "C13.prog.txt")
+    if not os.path.exists(cpath):
+        return items
+    for l in open(cpath):
+        l = l.strip()
+        if not l or l.startswith("#"):
+            continue
+        f = l.split("\t")
+        env = json.loads(f[1]) if len(f) > 1 else {}
+        h = f[0].split()
+        if h[0] == "src":
+            items.append(("src:" + h[1], open(os.path.join(d, h[1] + ".elk")).read(), open(os.path.join(d, h[1] + ".exp")).read(),
+                          env, ["witness", h[1]]))
+        else:
+            prof, seed = (h[1], h[2]) if h[0] == "gen" else ("c13", h[0])
+            p = c13lang.gen_program(vlib.SplitMix(int(seed)), prof)
+            exp, _ = c13lang.interp(p)
+            if exp is not None:
+                items.append(("gen:%s:%s" % (prof, seed), c13lang.to_elk(p), exp, env, p["features"]))
+    return items
 
 
 def run(ctx):
     ctx.explanation = (
         "PROVED UNBOUNDED (Coq, coq/Props/C13.v) on the address-level upvalue machine (captureUpvalue, opCloseUpvalues, Upvalue.Get/Set/"
-        "Close, call/return, growValueStack after the C10 fix), for every operation sequence from the initial state: the open list is "
-        "strictly sorted by slot address, duplicate-free, holds exactly the open upvalues, all pointing at slot addresses of the current "
-        "array, also across growth (C13_sorted_inv, C13_sorted_inv_step); one open upvalue per slot, so captures of one live variable "
-        "share it (C13_one_upvalue_per_slot). PROVED ONLY BOUNDED (exhaustive vm_compute over all traces of <= 6 operations from a "
-        "19-operation alphabet satisfying the discipline D): reads of the implementation machine = reads of the store-semantics spec "
-        "where every variable instance is a cell (C13_refines_bounded; worked instances for access after return and per-iteration "
-        "instances). NOT PROVED: the unbounded refinement, 'addresses inside the live stack', that the Go code is the model (no "
-        "machine-level hook stream was built), that the compiler always emits code satisfying D. These are covered only by the "
-        "differential stream c13.prog (generated closure programs vs a store-semantics reference interpreter, half of them with a "
-        "small initial stack so that growth happens while upvalues are open).")
-    ctx.trusted_base += ["Python reference interpreter lib/c13lang.py (cells per variable instance) as expected-output oracle",
-                         "the discipline D is assumed of compiled code (tested through program behaviour, not checked on bytecode)"]
+        "Close, call/return, tail call reusing the frame, growValueStack), for every operation sequence from the initial state: the open "
+        "list is strictly sorted by slot address, duplicate-free, holds exactly the open upvalues, all pointing at slot addresses of the "
+        "current array, also across growth (C13_sorted_inv, C13_sorted_inv_step); one open upvalue per slot, so captures of one live "
+        "variable share it (C13_one_upvalue_per_slot). PROVED ONLY BOUNDED (exhaustive vm_compute over all traces of <= 6 operations from "
+        "a 23-operation alphabet satisfying the discipline D: a slot with an open upvalue is closed before it is popped or given to a new "
+        "variable instance; return and the fixed tail call close themselves): reads of the implementation machine = reads of the "
+        "store-semantics spec where every variable instance is a cell (C13_refines_bounded). D is necessary: "
+        "C13_reuse_without_close_refuted (new instance in a slot without close: what the unfixed compiler did at the `for in` back edge "
+        "and on `continue`), C13_tailcall_without_close_refuted (callBytecodeFunctionTCO as found). NOT PROVED: the unbounded refinement; "
+        "that the compiler always emits code satisfying D (tested by c13.prog only). TIED TO THE GO CODE: stream c13.machine executes "
+        "seeded operation traces on a real vm.Thread through the hook vm/verif_c13.go and compares reads and the whole offset view "
+        "with the extracted Coq machine; c13.spec compares the real Thread's reads with the extracted spec on every D-respecting trace. "
+        "c13.prog: generated closure programs vs a store-semantics reference interpreter (Python; same cell discipline as the Coq spec).")
+    ctx.trusted_base += ["Python reference interpreter lib/c13lang.py (cells per variable instance) as expected-output oracle of c13.prog",
+                         "the discipline D is assumed of compiled code (tested through program behaviour, not checked on bytecode)",
+                         "hook /repo/vm/verif_c13.go (thin wrappers; sets vm.localCount before a tail call as PREP_LOCALS would)"]
     ctx.run_proof_gate()
+    c13machine.machine_stream(ctx)
     elk = vlib.build_elk()
     rng = ctx.rng("c13.prog")
     nprog = ctx.n(70, 3000)
@@ -97,23 +139,15 @@ def run(ctx):
     for name, src, exp in HAND:
         items.append(("hand:" + name, src, exp, {}, ["corpus"]))
         items.append(("hand:" + name, src, exp, {"ELK_INIT_VALUE_STACK_SIZE": "6144"}, ["corpus"]))
-    cpath = os.path.join(vlib.ROOT, "corpus", "C13.prog.txt")
-    if os.path.exists(cpath):
-        for l in open(cpath):
-            l = l.strip()
-            if l and not l.startswith("#"):
-                f = l.split("\t")
-                p = c13lang.gen_program(vlib.SplitMix(int(f[0])), "c13")
-                exp, _ = c13lang.interp(p)
-                if exp is not None:
-                    items.append(("gen:c13:%s" % f[0], c13lang.to_elk(p), exp, json.loads(f[1]) if len(f) > 1 else {}, p["features"]))
+    items += load_witnesses()
     ncorpus = len(items)
     skipped = 0
     featcount = {}
     for i in range(nprog):
         seed = rng.next() & 0x7FFFFFFF
         prng = vlib.SplitMix(seed)
-        p = c13lang.gen_program(prng, "c13")
+        prof = "c13b" if i % 4 else "c13"
+        p = c13lang.gen_program(prng, prof)
         exp, depth = c13lang.interp(p)
         if exp is None or len(exp) > 40000:
             skipped += 1
@@ -121,7 +155,7 @@ def run(ctx):
         for f in p["features"]:
             featcount[f] = featcount.get(f, 0) + 1
         env = {} if prng.chance(1, 2) else {"ELK_INIT_VALUE_STACK_SIZE": prng.choice(["6144", "7000", "9000", "12000"])}
-        items.append(("gen:c13:%d" % seed, c13lang.to_elk(p), exp, env, p["features"]))
+        items.append(("gen:%s:%d" % (prof, seed), c13lang.to_elk(p), exp, env, p["features"]))
     os.makedirs(os.path.join(ctx.workdir, "prog"), exist_ok=True)
 
     def one(j):
@@ -129,7 +163,7 @@ def run(ctx):
         path = os.path.join(ctx.workdir, "prog", "p%d.elk" % n)
         with open(path, "w") as f:
             f.write(src)
-        rc, out = vlib.sh([elk, "run", path], cwd=ctx.workdir, env=vlib.elk_env(env), timeout=120)
+        rc, out = vlib.sh([elk, "run", path], cwd=ctx.workdir, env=vlib.elk_env(env), timeout=300)
         try:
             os.remove(path)
         except OSError:
@@ -140,7 +174,7 @@ def run(ctx):
     distinct = set()
     samples = []
     for (name, src, exp, env, feats), (rc, out) in zip(items, res):
-        if "write_captured" in feats or "corpus" in feats:
+        if "write_captured" in feats or "corpus" in feats or "witness" in feats:
             distinct.add(src)
         if len(samples) < 4:
             samples.append({"program": name, "env": env, "features": feats[:8], "stdout_head": out[:60]})
@@ -154,9 +188,11 @@ def run(ctx):
                      stream="c13.prog", case={"program": name, "env": env, "source": src[:6000]}, impl=out[-1500:], model=exp[-600:],
                      oracle="stdout differs from the reference interpreter in which closures share variable cells")
     ctx.stream("c13.prog", len(items), len(distinct),
-               "generated programs: closures over locals/parameters/loop variables of while/until/do-while/do-until/loop/fornum/for-in "
-               "(with break/continue), nested closures, counters shared by several closures, closures returned from methods and called "
-               "after the frame returned, recursive closures with captured locals, closures passed through deep method recursion; half "
-               "of the runs with a small initial value stack; stdout vs reference interpreter (cells). non-trivial = a captured variable "
-               "is written inside a closure; %d hand-written/corpus cases first" % ncorpus,
+               "generated programs: closures over locals/parameters (read and written)/loop variables and BODY LOCALS of while/until/"
+               "do-while/do-until/loop/fornum/for-in-range/for-in-list, with break/continue before and after the capture, labelled "
+               "break/continue to an outer loop, nested closures, counters shared by several closures, closures returned from methods "
+               "and called after the frame returned, captures followed by a tail-position self/other call, recursive closures with "
+               "captured locals, closures passed through deep method recursion; half of the runs with a small initial value stack; "
+               "stdout vs reference interpreter (cells). non-trivial = a captured variable is written inside a closure or a witness; "
+               "%d hand-written/corpus cases first (corpus/C13.prog.txt, corpus/C13.src/)" % ncorpus,
                samples, featcount, mismatches=fails, skipped_too_big=skipped, corpus_cases=ncorpus)
